@@ -1,5 +1,6 @@
 import Pun.Props.C07
 import Pun.Lemmas.HierScale
+import Pun.Lemmas.HierTotal
 /-!
 # C07 — the mixed expression equals the converted-first expression, every cell of the dispatch graph
 
@@ -9,7 +10,13 @@ whenever the expression with every operand converted first answers `z`, the mixe
 through `pbox_number_ops`, intervals negated / inverted by interval arithmetic first, reflected
 operators with the un-exchanged dependency) answers the same `z`.
 
-Ingredients (Lemmas/HierComm, Lemmas/HierScale): the combination rules and the public sum / product
+`spec_total`: the converted-first expression answers a well-formed p-box — always for `+`, `-` and under
+p / o / i; under Frechet for `×`, `÷` when no converted operand straddles zero or one operand is a number.
+`route_partial` combines the two; the only part of `C07RouteStatement` left open is that the Frechet
+product of converted operands ANSWERS when an operand straddles zero and none is a number (soundness of
+naive ∩ Balch, C02's open extension) — agreement holds there as well.
+
+Ingredients (Lemmas/HierComm, Lemmas/HierScale, Lemmas/HierTotal): the combination rules and the public sum / product
 are symmetric in their operands (Frechet product included: sign routing, naive ∩ Balch); with a
 constant operand the independent and opposite rules coincide with the perfect rule; the product with
 an embedded number is `pbox_number_ops` under every dependency, also for zero-straddling boxes.
@@ -193,12 +200,20 @@ theorem refl_agrees (n : Nat) (hn : 0 < n) (d : Dep) (hd : d ≠ .unknown) (o : 
 
 /-! ## ★ every cell -/
 
+/-- divisor numbers / intervals the property covers (no zero inside); a p-box-like divisor needs no side
+condition for the AGREEMENT (if the converted-first quotient answers, so does the mixed one) -/
+def DivisorLowOk (o : Op) : Opd → Prop
+  | .num c => o = .div → c ≠ 0
+  | .ivl a b => o = .div → (0 < a ∨ b < 0)
+  | _ => True
+
+
 /-- **C07, dispatch part — agreement, every cell.**  For any number of steps, every dependency code, every
 operation and every pair of valid operands of which at least one is p-box-like (divisor numbers /
 intervals without zero): whenever the expression with every operand converted first answers `z`, the mixed
 expression answers the same `z`. -/
-theorem route_agrees (n : Nat) (hn : 0 < n) (d : Dep) (hd : d ≠ .unknown) (o : Op) (l r : Opd)
-    (hvl : ValidOpd n l) (hvr : ValidOpd n r) (hh : isHigh l = true ∨ isHigh r = true) (hdiv : DivisorOk o r)
+theorem route_agrees' (n : Nat) (hn : 0 < n) (d : Dep) (hd : d ≠ .unknown) (o : Op) (l r : Opd)
+    (hvl : ValidOpd n l) (hvr : ValidOpd n r) (hh : isHigh l = true ∨ isHigh r = true) (hdiv : DivisorLowOk o r)
     (z : PB) (h : spec n d o l r = .ok z) : evalOp n d o l r = .ok (.pbox z) := by
   cases hl : isHigh l with
   | true =>
@@ -216,6 +231,110 @@ theorem route_agrees (n : Nat) (hn : 0 < n) (d : Dep) (hd : d ≠ .unknown) (o :
       · rw [hl] at h'; cases h'
       · exact h'
     exact refl_agrees n hn d hd o l r hl hvl hr hvr z h
+
+theorem divisorLow_of (o : Op) (r : Opd) (h : DivisorOk o r) : DivisorLowOk o r := by
+  cases r <;> first | exact h | trivial
+
+theorem route_agrees (n : Nat) (hn : 0 < n) (d : Dep) (hd : d ≠ .unknown) (o : Op) (l r : Opd)
+    (hvl : ValidOpd n l) (hvr : ValidOpd n r) (hh : isHigh l = true ∨ isHigh r = true) (hdiv : DivisorOk o r)
+    (z : PB) (h : spec n d o l r = .ok z) : evalOp n d o l r = .ok (.pbox z) :=
+  route_agrees' n hn d hd o l r hvl hvr hh (divisorLow_of o r hdiv) z h
+
+/-! ## when the converted-first expression answers -/
+
+def isNum : Opd → Bool
+  | .num _ => true | _ => false
+
+/-- every valid operand converts to a well-formed box (a number to a constant one) -/
+theorem convert_valid (n : Nat) (hn : 0 < n) (l : Opd) (hv : ValidOpd n l) :
+    ∃ X, convert n l = .ok X ∧ WF n X ∧ (isNum l = true → ∃ c, X = ofIvl n c c) := by
+  cases l with
+  | num c => exact ⟨_, ivlToPbox_eq n c c hn (le_refl c), wf_ofIvl n c c (le_refl c), fun _ => ⟨c, rfl⟩⟩
+  | ivl a b => exact ⟨_, ivlToPbox_eq n a b hn hv, wf_ofIvl n a b hv, fun h => by simp [isNum] at h⟩
+  | pbox p => exact ⟨p, rfl, hv, fun h => by simp [isNum] at h⟩
+  | dist q => exact ⟨ofDist q, rfl, by obtain ⟨h1, h2⟩ := hv; subst h1; exact wf_ofDist q h2, fun h => by simp [isNum] at h⟩
+  | dss p => exact ⟨p, rfl, hv, fun h => by simp [isNum] at h⟩
+
+/-- a valid divisor without zero converts to a box of one sign -/
+theorem divisor_sameSign (n : Nat) (hn : 0 < n) (r : Opd) (hv : ValidOpd n r) (hdiv : DivisorOk .div r)
+    (Y : PB) (hY : convert n r = .ok Y) : SameSign Y := by
+  cases r with
+  | num c =>
+    have h0 := hdiv rfl
+    rw [show convert n (.num c) = .ok (ofIvl n c c) from ivlToPbox_eq n c c hn (le_refl c)] at hY
+    injection hY with e; subst e
+    rcases lt_trichotomy c 0 with h | h | h
+    · right; constructor <;> intro v hv' <;> simp only [ofIvl, List.mem_replicate] at hv' <;> rw [hv'.2] <;> exact h
+    · exact absurd h h0
+    · left; constructor <;> intro v hv' <;> simp only [ofIvl, List.mem_replicate] at hv' <;> rw [hv'.2] <;> exact h
+  | ivl a b =>
+    rw [show convert n (.ivl a b) = .ok (ofIvl n a b) from ivlToPbox_eq n a b hn hv] at hY
+    injection hY with e; subst e
+    rcases hdiv rfl with h | h
+    · left; constructor <;> intro v hv' <;> simp only [ofIvl, List.mem_replicate] at hv' <;> rw [hv'.2]
+      · exact h
+      · exact lt_of_lt_of_le h hv
+    · right; constructor <;> intro v hv' <;> simp only [ofIvl, List.mem_replicate] at hv' <;> rw [hv'.2]
+      · exact lt_of_le_of_lt hv h
+      · exact h
+  | pbox p =>
+    simp only [convert, convertPbox] at hY; injection hY with e; subst e
+    exact sameSign_of n _ hv (hdiv rfl)
+  | dist q =>
+    simp only [convert, convertPbox] at hY; injection hY with e; subst e
+    obtain ⟨h1, h2⟩ := hv; subst h1
+    exact sameSign_of _ _ (wf_ofDist q h2) (hdiv rfl)
+  | dss p =>
+    simp only [convert, convertPbox] at hY; injection hY with e; subst e
+    exact sameSign_of n _ hv (hdiv rfl)
+
+/-- **the converted-first expression answers** (with a well-formed p-box): always for `+`, `-` and under perfect /
+opposite / independent dependence; under Frechet for `×`, `÷` when neither converted operand straddles zero
+or one operand is a Python number -/
+theorem spec_total (n : Nat) (hn : 0 < n) (d : Dep) (hd : d ≠ .unknown) (o : Op) (l r : Opd)
+    (hvl : ValidOpd n l) (hvr : ValidOpd n r) (hdiv : DivisorOk o r)
+    (hf : d = .f → (o = .mul ∨ o = .div) →
+      (∀ X Y, convert n l = .ok X → convert n r = .ok Y → straddlesZero X = false ∧ straddlesZero Y = false) ∨
+      isNum l = true ∨ isNum r = true) :
+    ∃ z, spec n d o l r = .ok z ∧ WF n z := by
+  obtain ⟨X, hX, wX, nX⟩ := convert_valid n hn l hvl
+  obtain ⟨Y, hY, wY, nY⟩ := convert_valid n hn r hvr
+  simp only [spec, hX, hY, ok_bind]
+  apply binop_total n hn o d hd X Y wX wY
+  · intro ho; subst ho; exact divisor_sameSign n hn r hvr hdiv Y hY
+  · intro h1 h2
+    rcases hf h1 h2 with h | h | h
+    · exact Or.inl (h X Y hX hY)
+    · exact Or.inr (Or.inl (nX h))
+    · exact Or.inr (Or.inr (nY h))
+
+/-- **C07, dispatch part**: under the conditions of `spec_total` the converted-first expression answers a
+well-formed p-box and the mixed expression returns exactly that p-box.  What remains of `C07RouteStatement`:
+that the Frechet product / quotient of converted operands answers when an operand straddles zero and neither
+is a number (non-emptiness of naive ∩ Balch — the soundness of those two bounds, C02's open extension); the
+AGREEMENT (`route_agrees`) holds there too. -/
+theorem route_partial (n : Nat) (hn : 0 < n) (d : Dep) (hd : d ≠ .unknown) (o : Op) (l r : Opd)
+    (hvl : ValidOpd n l) (hvr : ValidOpd n r) (hh : isHigh l = true ∨ isHigh r = true) (hdiv : DivisorOk o r)
+    (hf : d = .f → (o = .mul ∨ o = .div) →
+      (∀ X Y, convert n l = .ok X → convert n r = .ok Y → straddlesZero X = false ∧ straddlesZero Y = false) ∨
+      isNum l = true ∨ isNum r = true) :
+    ∃ z, spec n d o l r = .ok z ∧ evalOp n d o l r = .ok (.pbox z) ∧ WF n z := by
+  obtain ⟨z, hz, wz⟩ := spec_total n hn d hd o l r hvl hvr hdiv hf
+  exact ⟨z, hz, route_agrees n hn d hd o l r hvl hvr hh hdiv z hz, wz⟩
+
+/-- non-vacuity: a zero-straddling distribution times a negative number under Frechet (the number route against
+naive ∩ Balch), and an interval divided by a DS structure under opposite dependence -/
+example : ∃ z, spec 3 .f .mul (.dist [-1, 0, 2]) (.num (-3)) = .ok z ∧
+    evalOp 3 .f .mul (.dist [-1, 0, 2]) (.num (-3)) = .ok (.pbox z) ∧ WF 3 z :=
+  route_partial 3 (by decide) .f (by decide) .mul _ _ ⟨rfl, by decide⟩ trivial (Or.inl rfl)
+    (fun h => by cases h) (fun _ _ => Or.inr (Or.inr rfl))
+
+example : ∃ z, spec 2 .o .div (.ivl (-1) 2) (.dss ⟨[1, 2], [3, 4]⟩) = .ok z ∧
+    evalOp 2 .o .div (.ivl (-1) 2) (.dss ⟨[1, 2], [3, 4]⟩) = .ok (.pbox z) ∧ WF 2 z :=
+  route_partial 2 (by decide) .o (by decide) .div _ _ (by show (-1 : Rat) ≤ 2; norm_num)
+    ⟨rfl, rfl, by decide, by decide, by repeat constructor⟩ (Or.inr rfl)
+    (fun _ => Or.inl (by intro v hv; simp at hv; rcases hv with h | h <;> rw [h] <;> norm_num))
+    (fun h => by cases h)
 
 
 end Pun.Hier
